@@ -1,0 +1,17 @@
+//go:build verif
+
+package blobclient
+
+import "github.com/cenkalti/backoff"
+
+// VerifPollBackOff, when set by a verification harness, supplies the backoff clusterClient uses when
+// it polls an origin that answers 202 (instead of the default, which waits seconds between requests).
+// It is compiled in only with the build tag `verif`.
+var VerifPollBackOff func() backoff.BackOff
+
+func verifPollBackOff() backoff.BackOff {
+	if f := VerifPollBackOff; f != nil {
+		return f()
+	}
+	return nil
+}
